@@ -7,7 +7,7 @@
    a byte string of the case is compared with it. *)
 From Coq Require Import List NArith ZArith Bool.
 From Coq Require Export Uint63.   (* exported: cases.v uses %uint63 literals *)
-From SW Require Export base.Verdict model.Needle model.NeedleCrc.
+From SW Require Export base.Verdict model.Needle model.NeedleCrc model.NeedleStream.
 Import ListNotations.
 Local Open Scope N_scope.
 
@@ -46,6 +46,48 @@ Record tscan := { t_len : N; t_visits : list (dneedle * N) }.
 (* ReadData(offset, size) on the file as it is *)
 Record rawread := { w_off : N; w_size : N; w_res : dneedle * N }.
 
+(* ---------- the other writers and readers of records (model/NeedleStream.v) ---------- *)
+(* one write into a real storage.Volume (version 3):
+     vw_stream = true   Volume.StreamWrite(n, reader, vw_ds): vw_needle carries cookie, id, the
+                        flags byte, data = ALL the bytes the reader holds (io.LimitReader keeps
+                        the first vw_ds), append_at_ns as StreamWrite set it; vw_chunks = the
+                        sizes of the pieces the reader handed out (= the Write calls the CRC
+                        writer saw)
+     vw_stream = false  the volume's normal write (Store.WriteVolumeNeedle -> Needle.Append);
+                        vw_needle as passed, append_at_ns as the volume set it *)
+Record vwrite := {
+  vw_stream : bool;
+  vw_needle : needle;
+  vw_ds : N;
+  vw_chunks : list N;
+  vw_crc : N;                  (* Go's NewCRC of the data that were to be stored *)
+  vw_entry : N * N             (* the needle map entry after the write: offset, size *)
+}.
+
+(* one byte of the .dat xor-ed: ReadData status and CRC of what it decoded; StreamRead output *)
+Record sflip := {
+  sf_rec : N; sf_pos : N; sf_mask : N;
+  sf_status : N; sf_crc : N;
+  sf_sread : list N; sf_serr : bool
+}.
+
+Record scase := {
+  s_sb : list N;                       (* the super block the volume wrote *)
+  s_writes : list vwrite;
+  s_file : list N;                     (* the .dat after the writes *)
+  s_reads : list (dneedle * N);        (* ReadData at every map entry *)
+  s_sreads : list (list N * bool);     (* Volume.StreamRead of every id: bytes handed to the writer, error? *)
+  s_do_scan : bool;
+  s_scan : list (dneedle * N);         (* ScanVolumeFileFrom(8) *)
+  s_flips : list sflip;
+  (* every record copied as a raw blob into a second volume: Volume.ReadNeedleBlob ->
+     Volume.WriteNeedleBlob; empty lists when not done *)
+  s_copy_sb : list N;
+  s_copy_ts : list N;                  (* the timestamps the second volume stamped *)
+  s_copy_file : list N;
+  s_copy_reads : list (dneedle * N)
+}.
+
 Record case := {
   c_version : N;
   c_prefix : list N;                 (* bytes in the file before the first Append *)
@@ -63,7 +105,8 @@ Record case := {
   i_file : list N;                   (* file content after the appends *)
   i_appends : list (N * N * N);      (* Append results: offset, size (= DataSize), actualSize *)
   i_reads : list (dneedle * N);      (* ReadData(offset_i, n_i.Size): needle fields, status code *)
-  i_scan : list (dneedle * N)        (* ScanVolumeFileFrom(prefix length): visited needle, offset *)
+  i_scan : list (dneedle * N);       (* ScanVolumeFileFrom(prefix length): visited needle, offset *)
+  c_streams : list scase             (* writes through a real volume: StreamWrite / normal write / raw blob copy *)
 }.
 
 (* ---------- the checksum ---------- *)
@@ -213,6 +256,135 @@ Definition laundered (c : case) (r : recopy) : bool :=
   let rd := nth (N.to_nat (r_rec r)) (r_reads r) (empty_dneedle, 1) in
   (snd rd =? 0) && negb (bytes_eqb (data (d_n (fst rd))) (data n)).
 
+(* ---------- stream cases: model side ---------- *)
+Definition vw_data (w : vwrite) : list N :=
+  if vw_stream w then takeN (vw_ds w) (data (vw_needle w)) else data (vw_needle w).
+
+(* the bytes one write appends *)
+Definition m_vrec (w : vwrite) : list N :=
+  let n := vw_needle w in
+  if vw_stream w
+  then stream_encode crc32c_update (cookie n) (id n) (flags n) (vw_ds w)
+                     (chunks_of (vw_chunks w) (vw_data w)) (append_at_ns n)
+  else encode 3 n.
+
+Definition m_vsize (w : vwrite) : N :=
+  if vw_stream w then stream_size (vw_ds w) else body_size (vw_needle w).
+
+Fixpoint m_ventries (ws : list vwrite) (off : N) : list (N * N) :=
+  match ws with
+  | [] => []
+  | w :: ws' => (off, m_vsize w) :: m_ventries ws' (off + len (m_vrec w))
+  end.
+
+Definition m_sfile (s : scase) : list N := s_sb s ++ concat (map m_vrec (s_writes s)).
+
+Definition bytes_bool_eqb (a b : list N * bool) : bool :=
+  bytes_eqb (fst a) (fst b) && Bool.eqb (snd a) (snd b).
+
+Definition m_sflip (mf : list N) (ents : list (N * N)) (f : sflip) : bool :=
+  let '(off, size) := nth (N.to_nat (sf_rec f)) ents (0, 0) in
+  let bad := flip_byte mf (sf_pos f) (sf_mask f) in
+  let '(d, st) := read_data crc bad off size 3 in
+  (status_code st =? sf_status f) && (crc (data (d_n d)) =? sf_crc f)
+  && bytes_eqb (stream_read bad off) (sf_sread f) && negb (sf_serr f).
+
+(* the raw-blob copy: ReadNeedleBlob(offset, size) of every record, WriteNeedleBlob into a
+   fresh volume *)
+Fixpoint m_copy_recs (mf : list N) (ents : list (N * N)) (tss : list N) : list (list N) :=
+  match ents, tss with
+  | (off, size) :: ents', ts :: tss' =>
+      restamp (takeN (actual_size size 3) (dropN off mf)) size ts 3 :: m_copy_recs mf ents' tss'
+  | _, _ => []
+  end.
+
+Fixpoint m_copy_entries (recs : list (list N)) (ents : list (N * N)) (off : N) : list (N * N) :=
+  match recs, ents with
+  | r :: recs', (_, size) :: ents' => (off, size) :: m_copy_entries recs' ents' (off + len r)
+  | _, _ => []
+  end.
+
+Definition m_stream (s : scase) : bool :=
+  let mf := m_sfile s in
+  let ents := m_ventries (s_writes s) (len (s_sb s)) in
+  bytes_eqb mf (s_file s)
+  && all2 pair_eqb ents (map vw_entry (s_writes s))
+  && forallb (fun w => (crc (vw_data w) =? vw_crc w)
+                       && (negb (vw_stream w) || (fold_left N.add (vw_chunks w) 0 =? len (vw_data w)))) (s_writes s)
+  && all2 dn_eqb (map (fun e => rd 3 mf (fst e) (snd e)) ents) (s_reads s)
+  && all2 bytes_bool_eqb (map (fun e => (stream_read mf (fst e), false)) ents) (s_sreads s)
+  && (if s_do_scan s then all2 dn_eqb (scan crc 3 mf (len (s_sb s))) (s_scan s) else true)
+  && forallb (m_sflip mf ents) (s_flips s)
+  && (match s_copy_file s with
+      | [] => true
+      | _ =>
+          let recs := m_copy_recs mf ents (s_copy_ts s) in
+          let cf := s_copy_sb s ++ concat recs in
+          bytes_eqb cf (s_copy_file s)
+          && (length recs =? length ents)%nat
+          && all2 dn_eqb (map (fun e => rd 3 cf (fst e) (snd e)) (m_copy_entries recs ents (len (s_copy_sb s))))
+                  (s_copy_reads s)
+      end).
+
+(* ---------- stream cases: the property's oracle, on the implementation's observables ---------- *)
+(* what a reader is entitled to get back from a write *)
+Definition vw_expect (w : vwrite) : dneedle :=
+  let n := vw_needle w in
+  if vw_stream w
+  then stream_dneedle (cookie n) (id n) (flags n) (vw_data w) (vw_crc w) (append_at_ns n)
+  else dview 3 n.
+
+(* the same but for the append timestamp (a raw-blob copy is re-stamped) *)
+Definition d_restamped (d : dneedle) (ts : N) : dneedle := d_upd d (fun n => n_set_append n ts).
+
+Fixpoint sp_layout (es : list (N * N)) (off : N) (file_len : N) : bool :=
+  match es with
+  | [] => off =? file_len
+  | (o, sz) :: es' => (o =? off) && (actual_size sz 3 mod 8 =? 0) && sp_layout es' (off + actual_size sz 3) file_len
+  end.
+
+Definition sp_visit (w : vwrite) (s : dneedle * N) : bool :=
+  (snd s =? fst (vw_entry w)) && dneedle_eqb (fst s) (vw_expect w).
+
+(* is [pos] a data byte of write [i]? *)
+Definition s_in_data (s : scase) (i pos mask : N) : bool :=
+  let w := nth (N.to_nat i) (s_writes s) {| vw_stream := false; vw_needle := empty_needle; vw_ds := 0; vw_chunks := []; vw_crc := 0; vw_entry := (0, 0) |} in
+  let lo := fst (vw_entry w) + 20 in
+  (lo <=? pos) && (pos <? lo + len (vw_data w)) && negb (mask =? 0).
+
+Definition s_written_sread (s : scase) (i : N) : list N :=
+  let w := nth (N.to_nat i) (s_writes s) {| vw_stream := false; vw_needle := empty_needle; vw_ds := 0; vw_chunks := []; vw_crc := 0; vw_entry := (0, 0) |} in
+  be_encode 4 (len (vw_data w)) ++ vw_data w.
+
+(* violations other than finding 2 *)
+Definition s_other (s : scase) : bool :=
+  let ws := s_writes s in
+  negb (sp_layout (map vw_entry ws) (len (s_sb s)) (len (s_file s)))
+  (* round trip: ReadData returns the written blob *)
+  || negb (all2 (fun w r => (snd r =? 0) && dneedle_eqb (fst r) (vw_expect w)) ws (s_reads s))
+  (* StreamRead of an undamaged record: DataSize and the data, no error *)
+  || negb (all2 (fun w r => bytes_eqb (fst r) (be_encode 4 (len (vw_data w)) ++ vw_data w) && negb (snd r)) ws (s_sreads s))
+  || (if s_do_scan s then negb (all2 sp_visit ws (s_scan s)) else false)
+  (* an altered data byte must be reported by ReadData *)
+  || existsb (fun f => s_in_data s (sf_rec f) (sf_pos f) (sf_mask f) && negb (sf_status f =? 2)) (s_flips s)
+  (* a raw-blob copy decodes to the same blob, re-stamped *)
+  || (match s_copy_file s with
+      | [] => false
+      | _ => negb (all3 (fun w ts r => (snd r =? 0) && dneedle_eqb (fst r) (d_restamped (vw_expect w) ts))
+                        ws (s_copy_ts s) (s_copy_reads s))
+      end).
+
+(* finding 2: StreamRead hands out altered data bytes without an error *)
+Definition s_k2 (s : scase) : bool :=
+  existsb (fun f => s_in_data s (sf_rec f) (sf_pos f) (sf_mask f) && negb (sf_serr f)
+                    && negb (bytes_eqb (sf_sread f) (s_written_sread s (sf_rec f)))) (s_flips s).
+
+(* claims are made for writes inside the property's domain only (normal writes: in_domain and
+   a payload; stream writes: the reader delivers at least dataSize bytes) *)
+Definition s_claims (s : scase) : bool :=
+  forallb (fun w => if vw_stream w then vw_ds w <=? len (data (vw_needle w))
+                    else in_domain (vw_needle w) && negb (empty_data (vw_needle w))) (s_writes s).
+
 Definition check (c : case) : outcome :=
   let v := c_version c in
   let mf := m_file c in
@@ -231,6 +403,9 @@ Definition check (c : case) : outcome :=
         || existsb (fun r => (r_mask r =? 0) && negb (p_copy_clean c r)) (c_recopies c) in
   let k0 := rv_empty in
   let k1 := existsb (fun r => in_data c (r_rec r) (r_pos r) (r_mask r) && laundered c r) (c_recopies c) in
+  let claimed := filter s_claims (c_streams c) in
+  let sother := existsb s_other claimed in
+  let k2 := existsb s_k2 claimed in
   {| o_corr :=
        crc_ok c
        && bytes_eqb mf (i_file c)
@@ -243,13 +418,17 @@ Definition check (c : case) : outcome :=
        && forallb (m_flip c mf apps) (c_flips c)
        && forallb (m_recopy c mf) (c_recopies c)
        && forallb (m_tscan c mf) (c_tscans c)
-       && forallb (m_raw c mf) (c_raws c);
-     o_prop := negb claims || negb (other || k0 || k1);
+       && forallb (m_raw c mf) (c_raws c)
+       && forallb m_stream (c_streams c);
+     o_prop := (negb claims || negb (other || k0 || k1)) && negb (sother || k2);
      (* narrow triggers: a violation that is neither "metadata of an empty payload lost" nor
-        "altered data came back valid from a scan-based copy" is never excused *)
-     o_trig := if other then None else if k0 then Some 0 else if k1 then Some 1 else None;
+        "altered data came back valid from a scan-based copy" nor "StreamRead handed out an
+        altered data byte" is never excused *)
+     o_trig := if other || sother then None else if k0 then Some 0 else if k1 then Some 1
+               else if k2 then Some 2 else None;
      o_nontrivial :=
        existsb (fun r => (snd r =? 0) && negb (empty_data (d_n (fst r)))) (i_reads c)
-       || existsb (fun w => (snd (w_res w) =? 0) && negb (empty_data (d_n (fst (w_res w))))) (c_raws c) |}.
+       || existsb (fun w => (snd (w_res w) =? 0) && negb (empty_data (d_n (fst (w_res w))))) (c_raws c)
+       || existsb (fun s => existsb (fun r => (snd r =? 0) && negb (empty_data (d_n (fst r)))) (s_reads s)) (c_streams c) |}.
 
 Definition summarize_cases (l : list case) : summary := summarize check l.
